@@ -318,13 +318,14 @@ def _log_evaluated() -> int:
 
 
 def _child(case: dict):
-    port = L.Lab.free_port()
+    srv = L.Lab.reserve_listener(case.get('rcvbuf'))
+    port = srv.getsockname()[1]
     c = case['config']
     bind_port = L.Lab.free_port() if c.get('listen') else None
     env = dict(case.get('env', {}))
     text = case.get('config_text') or config_text(c, port)
     lab = L.Lab(text, quantum=case.get('quantum', 0.0002), env=env, bind_port=bind_port, loud=bool(case.get('loud')))
-    lab.listen(port, case.get('policy', 'accept'), case.get('rcvbuf'))
+    lab.listen(port, case.get('policy', 'accept'), case.get('rcvbuf'), srv=srv)
 
     async def scenario(lab):
         return await play(lab, case, port, bind_port)
@@ -334,9 +335,30 @@ def _child(case: dict):
     return rec
 
 
+RETRIES = {'n': 0}
+
+
 def run_case(case: dict, wall_timeout: float | None = None):
-    """-> ('ok', record) | ('timeout', None) | ('crash', text)"""
-    return L.run_forked(_child, case, wall_timeout or case.get('wall', 60.0) + 15)
+    """-> ('ok', record) | ('timeout', None) | ('crash', text).
+
+    Faults of the machine, not of the code under test, are retried (another lab took the port ExaBGP's own listener was
+    given; the wall-clock watchdog fired on a loaded host): the case is deterministic in virtual time, a re-run observes the
+    same thing. What still fails after three attempts is reported as it is (inconclusive for that case)."""
+    out = ('crash', 'not run')
+    for attempt in range(3):
+        out = L.run_forked(_child, case, (wall_timeout or case.get('wall', 60.0) + 15) * (1 + attempt))
+        if out[0] == 'ok':
+            notes = out[1].get('notes') or []
+            first = notes[0] if notes else None
+            if first and first[0] == 0 and first[1] in ('connect-failed', 'no-connection') and attempt < 2:
+                # the very first connection never came about: ExaBGP's own listener may have lost its port to another lab
+                RETRIES['n'] += 1
+                continue
+            return out
+        if out[0] == 'crash' and 'Address already in use' not in str(out[1]) and 'LabTimeout: wall' not in str(out[1]):
+            return out
+        RETRIES['n'] += 1
+    return out
 
 
 # ---------------------------------------------------------------- helpers for monitors
